@@ -160,7 +160,9 @@ func CheckC15(l *Lab, verifDir string) int {
 			check(probe{signed, "expiry-after-first-lookup", "token at exp+75s, looked up successfully at exp+50s before", "GET", "?access_token=" + url.QueryEscape(tok), 403, ""})
 		}(signed)
 	}
-	users := []string{"alexander", "user.name@corp.example", "Ünïcödé-usér", "a-very-long-user-name-" + strings.Repeat("x", 60), "bob", "domainuser@REALM.TEST"}
+	users := []string{"alexander", "user.name@corp.example", "Ünïcödé-usér", "a-very-long-user-name-" + strings.Repeat("x", 60), "bob", "domainuser@REALM.TEST",
+		// long and hard to compress (tokens of several hundred characters)
+		"long-" + fmt.Sprintf("%x", GenStream(31, 150)), "longer-" + fmt.Sprintf("%x", GenStream(32, 230))}
 	if !l.Quick() {
 		for i := 0; i < 40; i++ {
 			users = append(users, fmt.Sprintf("generated-user-%04d@dom%d.example", i*37, i%3))
@@ -266,6 +268,33 @@ func CheckC15(l *Lab, verifDir string) int {
 			}
 		}
 		in.close()
+	}
+	// user tokens switched off (no keys configured): /tokeninfo has no key any token could be made
+	// under, in particular not an all-zero or empty one
+	if g0, err := l.StartGateway(&GWConfig{Tls: "disable", Auth: []string{"openid"}, IdP: idp, Hosts: []string{"127.0.0.1:3389"}, HostSelection: "roundrobin", PAASigningKey: StrP(Key32a)}); err != nil {
+		rep.Inconclusive("start without user tokens: " + err.Error())
+	} else {
+		in0 := &c15Inst{gw: g0}
+		now := time.Now().Unix()
+		pl, _ := json.Marshal(map[string]any{"iss": "rdpgw", "sub": "forged-user", "exp": now + 3600})
+		for name, tok := range map[string]string{
+			"encrypt-only under 32 zero bytes":       EncryptJWE(make([]byte, 32), map[string]any{"cty": "JWT"}, pl, true, nil),
+			"encrypt-only under 32 zero characters":  EncryptJWE([]byte(strings.Repeat("0", 32)), map[string]any{"cty": "JWT"}, pl, true, nil),
+			"encrypt-only under the PAA signing key": EncryptJWE([]byte(Key32a), map[string]any{"cty": "JWT"}, pl, true, nil),
+			"A256GCM under 32 zero bytes":            EncryptJWEGCM(make([]byte, 32), "A256GCM", pl),
+		} {
+			r, err := in0.tokeninfo("GET", "?access_token="+url.QueryEscape(tok))
+			if err != nil {
+				rep.Inconclusive("tokeninfo: " + err.Error())
+				continue
+			}
+			rep.Eval(HashStr("no-user-token-keys", name, r.Status))
+			rep.Count("status/"+fmt.Sprint(r.Status), 1)
+			if r.Status == 200 {
+				rep.Violate("C15/forged-token-accepted/no-keys-configured", fmt.Sprintf("user tokens are not configured; %s: status 200 body %s", name, trunc(string(r.Body), 120)), nil)
+			}
+		}
+		g0.Stop()
 	}
 	// mutants of a minted token
 	alphabet := "ABCDEFGHIJKLMNOPQRSTUVWXYZabcdefghijklmnopqrstuvwxyz0123456789-_"
